@@ -465,6 +465,8 @@ func c10GenResp(t *rapid.T, docker bool, label string, allowNull bool) c10Resp {
 	switch r.Kind {
 	case "object":
 		r.Body = obj
+		// legal white space around the value (pretty printers, proxies): still a JSON object
+		r.Body = rapid.SampledFrom([]string{"", "", " ", "\n", "\r\n\t  "}).Draw(t, label+"-lead") + r.Body + rapid.SampledFrom([]string{"", "", "\n", " \r\n"}).Draw(t, label+"-trail")
 		r.MidStall = rapid.IntRange(0, 9).Draw(t, label+"-midstall") == 0
 	case "array":
 		r.Body = "[" + obj + "]"
@@ -490,7 +492,7 @@ func c10GenResp(t *rapid.T, docker bool, label string, allowNull bool) c10Resp {
 func TestC10Probes(t *testing.T) {
 	kit.Run(t, kit.Spec[c10Case]{
 		Prop: "C10",
-		Rule: "the real elastic.Scanner / docker.Scanner (http and https, self-signed certificate) against a raw-socket scripted server chosen per probed address: per request path (elastic: / and /_aliases; docker: /_ping, /v*/info, /v*/version) an independent script - status 200/201/400/401/403/404/500/503, framing content-length / chunked / close-delimited, body a JSON object (nested, unicode, quotes) / array / string / number / bool / truncated object / HTML / empty / 1 MiB object / endless, or a fault: stall before headers, stall in the middle of the body, close or reset without answering, reset after the answer. Timeout per request 150..300 ms. Oracle: elastic record <=> GET / delivered a complete JSON object (any status); docker record <=> /info answered 2xx with a complete JSON object and the version negotiation did not hang; host/port/scheme of the record = probed target; info (and indexes / version when served) equal the served objects; a failing secondary request never suppresses the record; no record => an error; elapsed <= timeouts + 3 s. Excluded by construction: redirects/1xx/204/304 and (docker only, known finding) a literal null body. non-trivial: a non-object body or a fault in some request; distinct by case",
+		Rule: "the real elastic.Scanner / docker.Scanner (http and https, self-signed certificate) against a raw-socket scripted server chosen per probed address: per request path (elastic: / and /_aliases; docker: /_ping, /v*/info, /v*/version) an independent script - status 200/201/400/401/403/404/500/503, framing content-length / chunked / close-delimited, body a JSON object (nested, unicode, quotes, with or without surrounding white space) / array / string / number / bool / truncated object / HTML / empty / 1 MiB object / endless, or a fault: stall before headers, stall in the middle of the body, close or reset without answering, reset after the answer. Timeout per request 150..300 ms. Oracle: elastic record <=> GET / delivered a complete JSON object (any status); docker record <=> /info answered 2xx with a complete JSON object and the version negotiation did not hang; host/port/scheme of the record = probed target; info (and indexes / version when served) equal the served objects; a failing secondary request never suppresses the record; no record => an error; elapsed <= timeouts + 3 s. Excluded by construction: redirects/1xx/204/304 and (docker only, known finding) a literal null body. non-trivial: a non-object body or a fault in some request; distinct by case",
 		Gen: func(t *rapid.T) c10Case {
 			c := c10Case{Scan: rapid.SampledFrom([]string{"elastic", "docker"}).Draw(t, "scan"), Proto: rapid.SampledFrom([]string{"http", "https"}).Draw(t, "proto"),
 				TimeoutMs: rapid.SampledFrom([]int{150, 300}).Draw(t, "timeout")}
